@@ -626,9 +626,13 @@ func runC02(r *R) {
 		}
 		r.Violate("argument-mismatch", "Login", "caller passed Login(%q, %q), backend received %s", user, pass, got)
 	}
+	readOnly := false // the mailbox was selected with EXAMINE: the server refuses changes and never sets \Seen
 	for _, res := range results {
 		r.Nontrivial = true
-		c02Compare(r, res.op, res.err, b.calls[res.first:res.last])
+		c02Compare(r, res.op, res.err, b.calls[res.first:res.last], readOnly)
+		if res.op.Kind == "Select" && res.err == nil {
+			readOnly = res.op.RO
+		}
 	}
 	if len(r.viol) > 0 && srvLog != nil {
 		for _, l := range srvLog.all() {
@@ -715,9 +719,51 @@ func c02Issue(c *imapclient.Client, o c02op) error {
 	return fmt.Errorf("unknown op %s", o.Kind)
 }
 
-func c02Compare(r *R, o c02op, err error, calls []recCall) {
+func c02Compare(r *R, o c02op, err error, calls []recCall, readOnly bool) {
 	mismatch := func(field string, want, got interface{}) {
 		r.Violate("argument-mismatch", o.Kind+"."+field, "%s: the caller passed %s = %v but the backend received %v\n  call: %s\n  backend calls: %s", o.Kind, field, want, got, o, describeRec(calls))
+	}
+	if readOnly {
+		switch o.Kind {
+		case "Store", "Expunge", "UIDExpunge", "Move":
+			// RFC 9051 6.3.3: no change is permitted to a mailbox opened with EXAMINE; the command is refused
+			// and the backend is not reached
+			r.Probe("read-only-refusal")
+			for _, c := range calls {
+				switch c.Method {
+				case "Store", "Expunge", "Move": // (a COPY of the MOVE fallback is legitimate: it does not change this mailbox)
+					r.Violate("read-only-violated", o.Kind, "%s in a mailbox selected read-only reached the backend: %s", o.Kind, describeRec(calls))
+					return
+				}
+			}
+			if err == nil || !isIMAPStatusErr(err) {
+				r.Violate("read-only-violated", o.Kind, "%s in a mailbox selected read-only returned %v instead of a NO", o.Kind, err)
+			}
+			return
+		case "Close":
+			for _, c := range calls {
+				if c.Method == "Expunge" {
+					r.Violate("read-only-violated", "Close", "CLOSE of a mailbox selected read-only expunged: %s", describeRec(calls))
+					return
+				}
+			}
+		case "Fetch":
+			// the server turns every section into a PEEK
+			f := *o.Fetch
+			f.BodySection = nil
+			for _, bs := range o.Fetch.BodySection {
+				c := *bs
+				c.Peek = true
+				f.BodySection = append(f.BodySection, &c)
+			}
+			f.BinarySection = nil
+			for _, bs := range o.Fetch.BinarySection {
+				c := *bs
+				c.Peek = true
+				f.BinarySection = append(f.BinarySection, &c)
+			}
+			o.Fetch = &f
+		}
 	}
 	// pick the call of the expected method (Select may be preceded by Unselect, Close by Expunge)
 	method := map[string]string{"Create": "Create", "Delete": "Delete", "Rename": "Rename", "Subscribe": "Subscribe", "Unsubscribe": "Unsubscribe", "Select": "Select", "List": "List", "Status": "Status", "Append": "Append", "Fetch": "Fetch", "Store": "Store", "Copy": "Copy", "Move": "Move", "Search": "Search", "Expunge": "Expunge", "UIDExpunge": "Expunge", "Unselect": "Unselect", "Close": "Unselect", "Namespace": "Namespace"}[o.Kind]
